@@ -99,6 +99,8 @@ TraceCli ==
                  \* the same observation is what other properties say about the delivered file: its digests are those of the
                  \* package (C03), its bytes do not depend on what was at the target before (C07), its scripts are those of the
                  \* effective settings (C09)
+                 \cup Cl(e.bytes_equal_library_build, "C01.cli_ships_the_payload_of_the_effective_settings")
+                 \cup Cl(e.bytes_equal_library_build, "C02.cli_states_the_metadata_of_the_effective_settings")
                  \cup Cl(e.bytes_equal_library_build, "C03.cli_delivers_the_package_bytes")
                  \cup Cl(e.bytes_equal_library_build, "C07.cli_output_independent_of_target_history")
                  \cup Cl(e.bytes_equal_library_build, "C09.cli_embeds_the_scripts_of_the_effective_settings")
